@@ -19,7 +19,7 @@ reg("C12", harness="c12_gf", level="exploration", deadline=(60, 300),
     level_text="The domain is finite (2^16 pairs, 2^24 triples, 256 constants x 32 entries, 256 GFNI matrices x 256 bytes) and is "
                "enumerated completely on the real gf_mul/gf_inv/gf_vect_mul_init/ec_init_tables code in the default and "
                "GF_LARGE_TABLES builds; exhaustive:true means exactly that. ec_init_tables grids reach k = 1024 and 67 600 / 75 000 coefficients (a value first met beyond entry 65536) "
-               "and include rows with few distinct, constant and local-parity (zeros then ones) coefficients.",
+               "and include rows with few distinct, constant and local-parity (zeros then ones) coefficients; the thorough tier builds a 16384 x 8193 grid (tables beyond 4 GiB).",
     level_note="trusted: the 20-line shift-and-xor reference multiply (ref/ref_gf.h) and, for GFNI, the SDM definition of GF2P8AFFINEQB "
                "(software model cross-checked with the real instruction on this host)",
     runs={"quick": [dict(flavour="sim"), dict(flavour="lgt")], "thorough": [dict(flavour="sim"), dict(flavour="lgt"), dict(flavour="rel")]},
@@ -73,7 +73,7 @@ reg("C04", harness="c04_crc", level="exploration", deadline=(240, 1500),
                "with a bit-serial reference anchored to 10 published check values. Every kernel call is made with poisoned caller-saved registers. "
                "Huge part: messages of 2^32 .. 2^32+16 MiB bytes (zeros plus one non-zero byte at the end / just beyond 4 GiB / near the start) on "
                "every vector kernel and the dispatched entries; expected values from the reference via a zero-run operator measured from the reference.",
-    level_note="the message buffer is write-protected during every call (a checksum only reads); every other call sets bits 63..32 of the registers that carry arguments narrower than 64 bits (unspecified by the psABI). CRCs are GF(2)-affine, Adler-32 affine mod 65521: the basis cases decide all data of those lengths only if the kernels have no "
+    level_note="lengths of 2^32 + k*5552 / + 2^18 / + 128 in the huge part (remaining counts that are multiples of 2^32 at a block end); the message buffer is write-protected during every call (a checksum only reads); every other call sets bits 63..32 of the registers that carry arguments narrower than 64 bits (unspecified by the psABI). CRCs are GF(2)-affine, Adler-32 affine mod 65521: the basis cases decide all data of those lengths only if the kernels have no "
                "data-dependent control flow (assumed; dense data checked). Lengths beyond the sweep are covered only by the listed large cases.",
     runs=[dict(flavour="sim", part="sweep"), dict(flavour="sim", part="huge")],
     rule="case = (implementation, len, placement, data, seed) or (implementation, len, impulse position/bit) or (implementation, len, split); "
@@ -86,7 +86,7 @@ reg("C03", harness="c03_ec", level="exploration", deadline=(240, 1500),
                "(a) every len minlen..320 (thorough ..1100) x 64 source offsets x 5 destination offsets + end-flush placement at k=3, (b) 38 "
                "source counts up to 255, (c) rows 1..13 for the high-level entries, (d) all 256 coefficients x all 256 byte values through the "
                "kernel's main loop and tail (source and destination pointer arrays write-protected during the call), (g) special coefficient matrices (all 0 / all 1 / identity pattern / all 2 / one value per row / only the last column) at k in {1,4,10}, "
-               "(h) the high-level entries at the smallest shapes (k,rows) in {(1,1),(1,2),(2,1),(1,6)} x every length x 2 placements, (f) sparse sources: one source zero except a window of 1/8/24/32/64 bytes at every offset, the others zero or dense; "
+               "(e2) k = 32 / 40 with 1 MiB blocks for the high-level entries, (h) the high-level entries at the smallest shapes (k,rows) in {(1,1),(1,2),(2,1),(1,6)} x every length x 2 placements, (f) sparse sources: one source zero except a window of 1/8/24/32/64 bytes at every offset, the others zero or dense; "
                "outputs compared byte for byte with an independent GF(2^8) matrix product, sources read-only or "
                "compared, canaries and inaccessible pages around every buffer.",
     level_note="the full 5-way product is not claimed; the sub-products decide all data only under the no-data-dependent-branch assumption "
@@ -101,7 +101,7 @@ reg("C13", harness="c13_update", level="exploration", deadline=(240, 1500),
     level_text="For each of the 43 multiply-accumulate/update symbols and the dispatched ec_encode_data_update/gf_vect_mad under 7 CPU levels: every "
                "length minlen..320 (thorough ..1100) with accumulate onto non-zero parity at 17 placements, ALL k! update orders for k=1..6 (873 "
                "histories x 3 lengths) each ending with a doubled update that must cancel, k in {10,32,255} in three orders, rows 1..13, the "
-               "full 256x256 multiplication table, 64 / 65 / 100 / 200 parity rows at lengths 1..300 for the high-level entries, sparse sources (zero except a window of 1/8/24/32/64 bytes at every offset), special coefficient matrices; gf_vect_mul_{base,sse,avx,dispatched} for every len 0..700 (2200), also in place (source == destination) at every multiple of 32. Parity is compared with "
+               "full 256x256 multiplication table, k = 2^27 + 8 over a sparse table mapping for every assembly kernel, 64 / 65 / 100 / 200 parity rows at lengths 1..300 for the high-level entries, sparse sources (zero except a window of 1/8/24/32/64 bytes at every offset), special coefficient matrices; gf_vect_mul_{base,sse,avx,dispatched} for every len 0..700 (2200), also in place (source == destination) at every multiple of 32. Parity is compared with "
                "the reference after EVERY step of every history.",
     level_note="orders for k>6 are three designed ones; data-independence rests on the linearity assumption (dense xorshift data). trusted: ref/ref_gf.h",
     runs=[dict(flavour="sim")],
@@ -117,7 +117,7 @@ reg("C08", harness="c08_raid", level="exploration", deadline=(300, 1500),
                "len<=256 (600), plus two-byte corruptions (first/last data, P, Q x same/other vector x distance 0,1,8,16,32,48,64,128 x equal or different deltas, "
                "the reference deciding per position whether the arrays are still consistent); below-minimum vects with unmapped arrays must be refused without a fault; every pair of lost data blocks is "
                "rebuilt from generated P/Q for vects<=10.",
-    level_note="sources and the pointer array are write-protected during generation; refresh cases pre-fill P/Q with the exact parity of data differing in one byte / one sector / nothing; during the check calls on consistent arrays all blocks and the pointer array are. Parity is GF(2)-linear in the sources: impulses + dense data decide all data under the no-data-dependent-branch assumption; "
+    level_note="32767 / 32768 / 65535 / 65542 vectors (all but three sources one shared zero block) for every generation and check entry; sources and the pointer array are write-protected during generation; refresh cases pre-fill P/Q with the exact parity of data differing in one byte / one sector / nothing; during the check calls on consistent arrays all blocks and the pointer array are. Parity is GF(2)-linear in the sources: impulses + dense data decide all data under the no-data-dependent-branch assumption; "
                "trusted: ref/ref_gf.h (Q = Horner in 2 over 0x11D).",
     runs=[dict(flavour="sim")],
     rule="case = (implementation, vects, len, placement, data) / (implementation, vects, len, corrupted vector, position, value); "
@@ -132,7 +132,7 @@ reg("C09", harness="c09_invert", level="exploration", deadline=(300, 1800),
                "every (m,k), m<=255(256); Cauchy: every survivor set for m<=16 (20), all 1-,2-(3-)erasure minors for m in {64,128,255,256}, "
                "thorough all ~10^9 2x2 minors; Vandermonde: the documented safe table decided completely by enumerating every minor of its "
                "parity block; end-to-end encode/erase/invert/re-encode for all patterns m<=10 (12).",
-    level_note="end-to-end recovery also with 7, 8, 12, 13 and 19 erased fragments (m,k) = (14,7), (26,13), (32,13) at every simulated CPU level; general n x n (n>=5) and Cauchy survivor sets beyond the enumerated minors are theorems, not search results; trusted: ref/ref_gf.h "
+    level_note="generator matrices are exact-size buffers ending at an inaccessible page (also the degenerate shapes m == k); end-to-end recovery also with 7, 8, 12, 13 and 19 erased fragments (m,k) = (14,7), (26,13), (32,13) at every simulated CPU level; general n x n (n>=5) and Cauchy survivor sets beyond the enumerated minors are theorems, not search results; trusted: ref/ref_gf.h "
                "Gaussian elimination.",
     runs={"quick": [dict(flavour="sim")], "thorough": [dict(flavour="sim"), dict(flavour="lgt")]},
     rule="case = one matrix / one (m,k) / one survivor set / one minor / one erasure pattern; distinct_nontrivial = distinct (m,k) and region "
@@ -197,7 +197,7 @@ reg("C07", harness="c07_stream", level="model_checking", deadline=(500, 2400), e
                "between them) x 6 (7) input piece sizes x 3 output piece sizes, every piece in its own mapping that is scribbled once consumed. Big-then-tiny histories "
                "on 150 000-byte inputs: a call given 2000..100 000 bytes (below and above the internal staging buffer) with 1..4000 bytes of output, then a call "
                "presenting 0/1/7/300 bytes with any flush kind, for every named level-buffer size; the stream object sits directly behind an inaccessible page every other run.",
-    level_note="the >4 GiB big-stream part of C11 (1 MiB input pieces, noise around offset 2^32, small output pieces) is run under this property as well; chunk sizes outside the alphabets and histories on long streams beyond single-split/uniform are not covered; flush budget <=1 (2) "
+    level_note="inflate tiny-then-big family: a 200 000-byte zlib-made stream fed one input byte per call until 33 000 / 40 000 / 70 001 bytes are out, then all input with 32638..32768 bytes of output space; the last-buffer flag end_of_stream takes the values 1, 2 and 0x100; the >4 GiB big-stream part of C11 (1 MiB input pieces, noise around offset 2^32, small output pieces) is run under this property as well; chunk sizes outside the alphabets and histories on long streams beyond single-split/uniform are not covered; flush budget <=1 (2) "
                "and <=2 consecutive empty calls bound the deflate graph; a graph that hits its state cap is reported (exhaustive:false).",
     runs={"quick": [dict(flavour="sim", part="inflate"), dict(flavour="sim", part="deflate"), dict(flavour="sim", part="deflate-layers"), dict(flavour="sim", harness="c11_checksum", part="isize")],
           "thorough": [dict(flavour="sim", part="inflate"), dict(flavour="sim", part="deflate"), dict(flavour="sim", part="deflate-layers"),
@@ -207,7 +207,7 @@ reg("C07", harness="c07_stream", level="model_checking", deadline=(500, 2400), e
          "stream/cpu combinations completed.")
 
 
-reg("C14", harness="c14_flush", level="model_checking", deadline=(300, 1800), extra_src=["ref/ref_inflate.c"], engine="explore",
+reg("C14", harness="c14_flush", level="model_checking", deadline=(540, 2400), extra_src=["ref/ref_inflate.c"], engine="explore",
     technique="explicit-state exploration of the real isal_deflate with flush requests as per-call choices (flush budget 2); every reachable flush point checked; flush-position sweeps; one-shot pair closure",
     level_text="Every flush point reachable in the deflate state graphs (all call histories over in/out/flush/eos alphabets, up to 2 flush requests "
                "at any position, SYNC/FULL in any mix) is checked: marker 00 00 FF FF on a byte boundary, the prefix decodes (reference, prefix "
@@ -215,7 +215,8 @@ reg("C14", harness="c14_flush", level="model_checking", deadline=(300, 1800), ex
                "window. Longer repetitive inputs: one or two flush requests at every call index / pair of indices; exact-fit histories: the flushing call offers "
                "exactly the room left in the internal staging buffer (read from the live object after 6 kinds of earlier calls) -2..+2 bytes; pending-flush histories: after a "
                "completed FULL_FLUSH segment of 3000..40000 bytes a short flushing call (1..8191 bytes) with 1..100 bytes of output, then draining calls with or without more "
-               "input; the stream object sits directly behind an inaccessible page every other run (a look-back in front of the history faults). One-shot: all ordered pairs "
+               "input; bytewise-steered pending-marker histories (new input with FULL_FLUSH arriving exactly between end-of-block and marker); in histories whose flushes are all FULL the stream must "
+               "decode from behind EVERY marker, also one completed in the middle of a later call; the stream object sits directly behind an inaccessible page every other run. One-shot: all ordered pairs "
                "from 48 inputs x levels x 3 CPU levels: FULL_FLUSH output is unterminated + byte aligned and concatenates into one valid stream.",
     level_note="flush budget 2 in graphs; positions sweep uses uniform input chunks; trusted: ref/ref_inflate.c window/distance accounting.",
     runs={"quick": [dict(flavour="sim", part="graphs"), dict(flavour="sim", part="positions"), dict(flavour="sim", part="stateless")],
@@ -251,7 +252,7 @@ reg("C06", harness="c06_mutants", level="fault_enumeration", deadline=(360, 2400
     level_text="For each seed stream (<=64 bytes, every block type / code shape, raw-gzip-zlib-NO_HDR_VER framing) the COMPLETE closure of truncations, "
                "single-bit flips and byte substitutions {00,FF,+1} is decoded by the real inflate under one-shot (6 output capacities), streaming, "
                "byte-at-a-time input, 1-byte output and (seeds/faults) every 2-split, kernels base/_01/_04; plus ALL byte strings of length <=2 "
-               "(thorough 3) in all 7 modes and ~40 single injected grammar/wrapper faults with their documented error class. Completion is "
+               "(thorough 3) in all 7 modes and ~70 single injected grammar/wrapper faults with their documented error class (incl. both alphabets over-subscribed by ONE extra code at every depth 2..15). Completion is "
                "accepted only if the independent decoder finds the mutated bytes valid with equal output; guard pages catch any write beyond "
                "avail_out; a driver horizon catches non-termination.",
     level_note="second-order mutants and seeds beyond 64 bytes are not enumerated; trusted: ref/ref_inflate.c verdict/classification.",
@@ -268,7 +269,7 @@ reg("C11", harness="c11_checksum", level="fault_enumeration", deadline=(300, 240
                "byte; a gzip header with FEXTRA+FNAME+FCOMMENT+FHCRC) are closed under every truncation, every single-bit flip and {00,FF,+1} "
                "substitutions at EVERY offset and decoded under one-shot (6 capacities), streaming, byte-at-a-time, 1-byte-output and every "
                "2-split drivers on kernels base/_01/_04: success only if the reference accepts the mutated bytes with the same output, and "
-               "state.crc must equal the reference checksum. Producer: trailers of all levels x 4 wrapper modes x 5 chunkings x 4 CPU levels "
+               "state.crc must equal the reference checksum; also 1..8 bytes inserted in front of the trailer with 0 / 9 / 40 bytes appended (input that continues past the member). Producer: trailers of all levels x 4 wrapper modes x 5 chunkings x 4 CPU levels "
                "are recomputed independently. Streams of 2^32+77782 bytes (32-bit total_in/total_out and ISIZE wrap, 16-bit hash indices) go through "
                "isal_deflate in 1 MiB pieces (quick: levels 0-1 on constant data; thorough: all levels x constant / mixed data): trailer against the "
                "reference, then decoded again by isal_inflate (gzip verification) and zlib and compared with the input; two more kinds put 4 MiB of noise around offset 2^32 behind a flush that pins a "
@@ -330,7 +331,7 @@ reg("C17", harness="c17_window", level="exploration", deadline=(300, 1800), extr
                "65537 x 3 dictionary lengths x both routes): the rest of the stream decoded with the dictionary as its only history must be the rest "
                "of the input with no match in front of the dictionary; window-edge family: period-2^w noise with a marker at the cut and two windows back "
                "(hash entry aliasing to distance exactly 2^w, real history byte different), history = earlier call or dictionary, w in {9,10,12,14,15}: "
-               "the result must decode within a 2^w window; every isal_deflate_reset_dict must leave the (shared) pre-processed dictionary object unchanged; length sweep: 16-symbol noise of period 2^w+1 (every position repeats just outside the window) at EVERY "
+               "the result must decode within a 2^w window; every other stream object is recycled (a 512-byte-window stream, then isal_deflate_reset) and starts directly behind an inaccessible page; zlib streams that announce their dictionary (FDICT, made by deflateSetDictionary, dictionaries up to 70 000 bytes) go through ISAL_NEED_DICT / isal_inflate_set_dict; every isal_deflate_reset_dict must leave the (shared) pre-processed dictionary object unchanged; length sweep: 16-symbol noise of period 2^w+1 (every position repeats just outside the window) at EVERY "
                "length in a range of 4300 consecutive values x levels 1-3 x 6 CPU levels; wrong-state calls are refused with the context image unchanged.",
     level_note="inputs beyond the designed families are not covered; h8k/lht builds are run in the thorough tier; trusted: ref_inflate distance accounting.",
     runs={"quick": [dict(flavour="sim", part="window"), dict(flavour="sim", part="dict")],
